@@ -536,6 +536,56 @@ pub fn c11(tier: Tier) -> ! {
     if sfp > 0 {
         run.fail(Some("serde-json-float-parse"), &format!("{} of {} structures do not read back identically", sfp, sn), json!({"count": sfp}));
     }
+    // (vi) structures whose shapes carry values no constructor produces, built through the public
+    // Rust API (so a field the writer skips cannot hide from the comparison)
+    {
+        use packing::{Atom2, LJShape2, LineShape, MolecularShape2, PackedState, PotentialState, LJ2};
+        use packing::wallpaper::get_wallpaper_group;
+        let mut custom: Vec<(String, AnyState)> = vec![];
+        for g in ["p2", "p2mg", "p1g1"].iter() {
+            let wg = get_wallpaper_group(wallpaper_enum(g)).unwrap();
+            let lj = LJShape2 {
+                name: "two species".to_string(),
+                items: vec![
+                    LJ2 { position: nalgebra::Point2::new(-0.4, 0.1), sigma: 1.3, epsilon: 3., cutoff: Some(2.75) },
+                    LJ2 { position: nalgebra::Point2::new(0.6, -0.2), sigma: 0.8, epsilon: 0.4, cutoff: Some(2.75) },
+                    LJ2 { position: nalgebra::Point2::new(0.1, 0.7), sigma: 1.1, epsilon: 1.7, cutoff: None },
+                ],
+            };
+            custom.push((format!("{} custom LJ", g), AnyState::Lj(PotentialState::from_group(lj, &wg).unwrap())));
+            let mol = MolecularShape2 { name: "dimer".to_string(), items: vec![Atom2::new(-0.5, 0., 0.8), Atom2::new(0.7, 0.25, 0.45)] };
+            custom.push((format!("{} custom discs", g), AnyState::Mol(PackedState::from_group(mol, &wg).unwrap())));
+            let poly = LineShape::from_radial("kite", vec![1., 0.625, 1.375, 0.625]).unwrap();
+            custom.push((format!("{} custom polygon", g), AnyState::Poly(PackedState::from_group(poly, &wg).unwrap())));
+        }
+        let mut n_custom = 0u64;
+        for (label, st) in custom.iter() {
+            n_custom += 1;
+            let doc = st.to_json();
+            let case = json!({"engine": "document", "label": label, "state": doc});
+            match roundtrip_judge(st) {
+                RoundTrip::Ok | RoundTrip::FloatParse(_) => {}
+                RoundTrip::Broken(w) => run.fail(None, &format!("{}: {}", label, w), case.clone()),
+            }
+            // every public field of the shape's components is in the document
+            let keys: &[&str] = match st {
+                AnyState::Lj(_) => &["position", "sigma", "epsilon", "cutoff"],
+                AnyState::Mol(_) => &["position", "radius"],
+                AnyState::Poly(_) => &["start", "end"],
+            };
+            for (i, item) in doc["shape"]["items"].as_array().map(|a| a.to_vec()).unwrap_or_default().iter().enumerate() {
+                for k in keys.iter() {
+                    if item.get(*k).is_none() {
+                        run.fail(None, &format!("{}: item {} of the written shape lacks the field {:?}", label, i, k), case.clone());
+                    }
+                }
+            }
+            if let Some(w) = svg_judge(st) {
+                run.fail(None, &format!("{}: {}", label, w), case.clone());
+            }
+        }
+        run.set("custom_structures", n_custom);
+    }
     // (v) every field matters: each leaf of the document is given a value no constructor
     // produces, the document is read, written and read again, and the leaf must still be there
     let mut leaf_checks = 0u64;
@@ -637,7 +687,7 @@ pub fn c11(tier: Tier) -> ! {
     run.set("distinct_nontrivial", ok + sok + svgs);
     run.set("special_doubles", doubles.len() as u64);
     run.set("exhaustive", true);
-    run.set("rule", "(i) doubles: sign x every 8th (quick) / every (thorough) binary exponent x 7 mantissa patterns, subnormals, k/10, k/3, k degrees, 1/k - each placed in each of the six parameter slots of 4 states (hard polygon, hard trimer, LJ trimer, LJ circle) where it is finite and admissible; (ii) structures: constructor-built, optimised (3 real hill climbs) and awkward-number lattice states for 7 groups x 11 shapes; each: to_string -> from_str -> identical re-serialisation, bit-identical score and placements; differences are classified leaf by leaf, and only doubles whose bare serde_json round trip fails are attributed to the known dependency finding; (iii) the SVG of every structure: all <use> matrices parsed with a correctly rounded parser and compared as a multiset with the Cartesian transforms of the copies and their 8 nearest images, and the 9 cell outlines with the lattice translates; (iv) files written by the binary; (v) leaf perturbation: every scalar leaf of 4 documents is set to a value no constructor produces and must survive read -> write -> read. Non-trivial = exact round trips plus SVG documents compared");
+    run.set("rule", "(i) doubles: sign x every 8th (quick) / every (thorough) binary exponent x 7 mantissa patterns, subnormals, k/10, k/3, k degrees, 1/k - each placed in each of the six parameter slots of 4 states (hard polygon, hard trimer, LJ trimer, LJ circle) where it is finite and admissible; (ii) structures: constructor-built, optimised (3 real hill climbs) and awkward-number lattice states for 7 groups x 11 shapes; each: to_string -> from_str -> identical re-serialisation, bit-identical score and placements; differences are classified leaf by leaf, and only doubles whose bare serde_json round trip fails are attributed to the known dependency finding; (iii) the SVG of every structure: all <use> matrices parsed with a correctly rounded parser and compared as a multiset with the Cartesian transforms of the copies and their 8 nearest images, and the 9 cell outlines with the lattice translates; (iv) files written by the binary; (v) leaf perturbation: every scalar leaf of 4 documents is set to a value no constructor produces and must survive read -> write -> read; (vi) 9 structures with two-species LJ molecules, unequal discs and a kite, built through the public Rust API. Non-trivial = exact round trips plus SVG documents compared");
     run.sample(json!({"slot": "x", "value": f64_bits_json(0.38813333333333333), "state": "p2 polygon4"}));
     run.require(ok > 100 && svgs > 50, "too few exact round trips / SVG documents");
     run.finish()
